@@ -9,6 +9,9 @@ ENGINES = [
 ]
 
 PHASES = {
+    "C14": [
+        {"pkg": "e2", "test": "TestC14CrossNode", "phase": "C14/cross-node-delivery"},
+    ],
     "C13": [
         {"pkg": "e2", "test": "TestC13Wills", "phase": "C13/will-messages"},
     ],
@@ -60,6 +63,12 @@ PHASES = {
 }
 
 META = {
+    "C14": {
+        "engine": "E2-brokermc",
+        "technique": "exhaustive enumeration of subscriber placements x unreachable-destination subsets x topic/filter pairs on the 2-3 node in-process broker with recording log proxies and fault-injecting inter-node transport",
+        "text": "For 2 and 3 nodes: every assignment of {matching, non-matching} subscribers to nodes, every subset of remote nodes unreachable at publish time, 2-4 topic/filter pairs, QoS 1 and 2 (thorough: publisher on either node, subscription gossip of one node withheld). Each node's log must see exactly one successful append iff it hosts a matching subscription known to the publishing node and is reachable, subscribers receive the message exactly once from their own node, an unreachable destination does not stop the others, and the acknowledgement is present iff no destination failed.",
+        "note": "Destinations are computed from the publishing node's own ByPattern at publish time ('known to the publishing node').",
+    },
     "C13": {
         "engine": "E2-brokermc",
         "technique": "exhaustive cross product of will parameters x termination causes x watcher placements on the 1-3 node in-process broker under virtual time",
